@@ -41,7 +41,7 @@ claim("C10",
       "fail exactly on a non-digit; checkStandardUPCEANChecksum is proved to accept exactly 'last digit == mod10(prefix)'; convertUPCEtoUPCA is proved equal to the "
       "zero-suppression expansion character by character; the EAN-13, EAN-8 and UPC-E writers carry a proved assertion that the canonical contents end in the standard "
       "check digit (UPC-E: of the expanded number) on both the computed and the supplied path; onedWriter_checkNumeric is proved to accept exactly digit strings; "
-      "EAN-5 extensionChecksum and determineCheckDigit are proved against formula and table; parity tables (EAN-5, UPC-E vs EAN-13 first digit) proved by cases over the dumped tables. "
+      "EAN-5 extensionChecksum and determineCheckDigit are proved against formula and table; parity tables (EAN-5, UPC-E vs EAN-13 first digit) proved by cases over the dumped tables; ean13Reader_determineFirstDigit and determineNumSysAndCheckDigit return exactly the table position of the observed L/G parity pattern (NotFoundException exactly when it is in neither table). "
       "Not covered: Code 128 mod-103 and Code 93 C/K checksums, the single-substitution detection lemmas, EAN-2 parity.",
       "strings are canonical ids with length/character functions; strconv.Itoa stubbed (exact for 0..9); range-over-string abstracted (ASCII exact); tables dumped from the compiled package.")
 
@@ -91,7 +91,7 @@ claim("C03",
       "Narrow claim on the writer/reader mirror pieces of the 1-D symbologies (the rendered-image round trip itself is not decided): "
       "Code 128: code128ChooseCode is proved to return a code set that can encode the next character (A: ASCII 0..95 or FNC1-4, B: ASCII 32..127 or FNC1-4, C: a digit pair or FNC1) for every content and position, "
       "code128FindCType equals its classification; the 107-entry pattern table shared by writer and reader has 11-module six-run patterns (stop: 13 modules, seven runs), pairwise distinct (5565 pairs); "
-      "ITF: the writer's pattern table marks the same elements wide/narrow as both width variants of the reader's table, two wide of five, pairwise distinct; "
+      "ITF: the writer's pattern table marks the same elements wide/narrow as both width variants of the reader's table, two wide of five, pairwise distinct; validateQuietZone accepts exactly rows whose min(10 narrow widths, start) pixels before the start pattern are white, skipWhiteSpace returns the first black pixel; "
       "UPC/EAN: L patterns are four runs of 7 modules, G = reversed L (as built by init), all 20 distinct; the check-digit, UPC-E expansion and parity-table obligations of C10 (convertUPCEtoUPCA, writer check digits, EAN-13/UPC-E parities) carry the canonical(c) part; "
       "onedWriter_renderResult's geometry is C14. "
       "Not decided: the row decoders (decodeRow of every reader) against rendered rows, Code 39/93 extended-mode escapes, Codabar, the Code 128 reader's code-set state machine and checksum, quiet-zone validation, MultiFormat dispatch, the end-to-end round trip.",
